@@ -35,6 +35,7 @@ mod c13;
 mod tables_prec;
 mod tables_lower;
 mod e2e;
+mod jsontext;
 
 fn main() {
     util::silence_panics();
